@@ -72,6 +72,17 @@ func init() {
 		Old: "switch iface.NextFairnessCounter(\"AReplica.replicaLoop.0\", 2) {", New: "switch uint(0) {", Expect: "asks-the-oracle"})
 	seed(Seed{Name: "with-takes-first-member", Prop: "C10", Rule: "FC-IDS", File: "systems/nestedcrdtimpl/NestedCRDTImpl.go",
 		Old: "targetRead0.SelectElement(iface.NextFairnessCounter(\"ACRDTResource.receiveReq.1\", uint(targetRead0.AsSet().Len())))", New: "targetRead0.SelectElement(0)", Expect: "asks-the-oracle"})
+	seed(Seed{Name: "file-commit-keeps-pending-write", Prop: "C01", Rule: "STORE-DECISION", File: res + "filesystem.go",
+		Old: "\t\t\tres.writePending = nil\n\t\t\tdoneCh <- struct{}{}", New: "\t\t\tdoneCh <- struct{}{}", Expect: "forgets-pending-after-write"})
+	seed(Seed{Name: "file-read-prefers-cache-over-own-write", Prop: "C01", Rule: "STORE-DECISION", File: res + "filesystem.go",
+		Old: "\tif res.writePending != nil {\n\t\treturn tla.MakeString(*res.writePending), nil\n\t} else if res.cachedRead != nil {\n\t\treturn tla.MakeString(*res.cachedRead), nil\n\t} else {",
+		New: "\tif res.cachedRead != nil {\n\t\treturn tla.MakeString(*res.cachedRead), nil\n\t} else if res.writePending != nil {\n\t\treturn tla.MakeString(*res.writePending), nil\n\t} else {", Expect: "file.ReadValue"})
+	seed(Seed{Name: "file-write-keeps-read-cache", Prop: "C01", Rule: "STORE-DECISION", File: res + "filesystem.go",
+		Old: "\tres.cachedRead = nil\n\tstrToWrite := value.AsString()", New: "\tstrToWrite := value.AsString()", Expect: "file.WriteValue:drops-read-cache"})
+	seed(Seed{Name: "persistent-write-not-noted", Prop: "C01", Rule: "STORE-DECISION", File: res + "persistent.go",
+		Old: "\tres.hasNewValue = true\n", New: "", Expect: "notes-every-write"})
+	seed(Seed{Name: "persistent-store-failure-ignored", Prop: "C01", Rule: "STORE-DECISION", File: res + "persistent.go",
+		Old: "\t\t\tif err != nil {\n\t\t\t\tpanic(err)\n\t\t\t}\n\t\t\tres.hasNewValue = false", New: "\t\t\tif err != nil {\n\t\t\t\tlog.Println(err)\n\t\t\t}\n\t\t\tres.hasNewValue = false", Expect: "Persistent.Commit"})
 	seed(Seed{Name: "merge-second-loop-reuses-iterator", Prop: "C12", Rule: "ITER-FRESH", File: res + "aworset.go",
 		Old: "\ti = remK.Iterator()\n", New: "", Expect: "AWORSet.Merge"})
 }
